@@ -115,7 +115,28 @@ def type_order(m):
     return m
 
 
+def spec_check(ctx, models):
+    """the Coq specification (Spec/Expressible.v, Spec/Normalize.v — the definitions the C02 theorems are
+    about), evaluated by the extracted model, against this file's independent oracle: the two statements of
+    the property must coincide on every relation, else the framework itself is inconsistent"""
+    try:
+        rs = ctx.model(tf.FAM, ["(207 %s)" % sexp.enc(m) for m in models])
+    except core.ModelUnavailable:
+        return
+    for m, r in zip(models, rs):
+        if r is None or r == []:
+            continue
+        for t, st in zip(m[1], r):
+            for (k, u), sr in zip(t[1], st[1]):
+                ctx.count("spec_relations_compared")
+                mine = [1 if carriable_userset(u) else 0, 1 if expressible(u) else 0, normalize(u)]
+                if sr[1] != mine[0] or (mine[0] and (sr[2] != mine[1] or (mine[1] and sr[3] != mine[2]))):
+                    raise RuntimeError("specification drift between Spec/*.v and run/props/c02.py on %r: %r vs %r"
+                                       % (u, sr[1:], mine))
+
+
 def check_models(ctx, models, label):
+    spec_check(ctx, models)
     for via in ("proto", "json"):
         ir = tf.correspond_print(ctx, models, False, via, label)
         if via == "json":
